@@ -27,7 +27,7 @@ def spec(pid, pf):
     return {
         "uses_gen": ["Mathutil", "CoinHours", "CoinLoops"],   # CoinLoops: C01_*_is_translated (Proofs/LedgerRefine.v)
         "cmd": "c01",
-        "budget": (16, 300),
+        "budget": (12, 300),
         "header": "From Sky Require Import Base.Uint Model.LedgerTypes Model.LedgerObs.\nOpen Scope Z_scope.",
         "gen_header": "From Sky Require Import Model.Ledger Model.LedgerReplay.",
         "corr": "%s_corr.v" % pid,
